@@ -81,6 +81,10 @@ LN = dict(name='CountLines/DiffLinesToRunes/LinesStats', probe='k11', fam=['ln']
           nontrivial=nt_any, rule='byte strings over {a,b,LF,space,CR,0xff,x} up to 11 bytes; random edit scripts')
 CD = dict(name='Burndown Serialize/Deserialize rows+CSR', probe='k17', fam=['cd'], quick=4000, thorough=80000,
           nontrivial=nt_any, rule='random dense matrices incl. negatives, zeros, 2^32-1; CSR interaction matrices')
+CDC = dict(name='Couples/Devs Serialize/Deserialize (map CSR, names, lines, touched files, ticks)', probe='k17c', fam=['cd'],
+           quick=3000, thorough=100000, nontrivial=lambda ops, impl: ops[0].startswith('ccsr') and '=' in ops[0],
+           rule='couples results with 0-5 files / 0-4 developers (+ unmatched row), explicit zero entries, empty rows, unicode / '
+                'empty names, large counters; developer statistics with the unmatched author, empty language names, 4 tick sizes')
 TS = dict(name='toposort.Graph', probe='k15', fam=['ts'], quick=5000, thorough=150000, case_start=r'^new$',
           nontrivial=nt_has('edge', 'sort'), rule='random builds with removals and re-indexing, then Toposort')
 RES = dict(name='Pipeline.Initialize(resolve)', probe='k10', fam=['ts'], quick=3000, thorough=60000, nontrivial=nt_any,
@@ -133,6 +137,41 @@ E01L = dict(name='end-to-end: linear histories with arbitrary edits (row sums, n
             quick=4000, thorough=400000, nontrivial=nt_any,
             rule='3-14 commits, 1-3 edits each over 3 paths (nested dir): repeated lines, deletions, renames, binary flips, '
                  'missing final newline; checked: no negative cell, last row sum == text lines at HEAD, per file likewise')
+def _o(name, probe, quick, thorough, rule, extra=None):
+    d = dict(name=name, probe=probe, fam=None, quick=quick, thorough=thorough, nontrivial=nt_any, rule=rule)
+    if extra:
+        d['extra'] = extra
+    return d
+
+
+E05 = _o('oracle: rbtree/allocator invariants on several trees incl. hibernation and clone round trips', 'e05', 600, 40000,
+         'random multi-tree operation sequences on the real red-black tree: every invariant, content, iterator position, '
+         'allocator disjointness and hibernation / clone round trip')
+E14 = _o('oracle: recording items through the real Pipeline.Run (exactly-once, per-parent replay, merge flag)', 'e14', 1500, 60000,
+         'DAG histories of 3-14 commits in in-memory repositories, real DevsAnalysis / CommitsAnalysis and recording items')
+E16I = _o('oracle: GeneratePeopleDict / Consume on generated commit lists', 'e16', 4000, 200000,
+          'totality, same e-mail => same developer, descriptions = names then e-mails', ['c16'])
+E16M = _o('oracle: MergeReversedDictsIdentities component structure', 'e16', 4000, 200000,
+          'pairs of well-formed identity lists: every identity indexed, equal final index iff connected, union descriptions', ['c16merge'])
+E19 = _o('oracle: TicksSinceStart through Consume (floor, clamp, registry)', 'e16', 4000, 200000,
+         'random commit-time sequences and five tick sizes', ['c19'])
+E11 = _o('oracle: FileDiff output is a canonical edit script with consistent counts', 'e16', 4000, 200000,
+         'random blob pairs (CRLF, invalid UTF-8, duplicates, no final newline, cleanup on/off): counts, identical equal runs, shape', ['c11'])
+E18 = _o('oracle: devs / couples / summary merges conserve totals', 'e18', 300, 20000,
+         'pairs of results of real runs on synthetic repositories with partially overlapping files and identities')
+E20N = _o('oracle: TreeDiff+BlobCache, no filter', 'e20', 600, 40000, 'apply(changes, previous set) == current set; blob bytes', ['none'])
+E20P = _o('oracle: TreeDiff+BlobCache, path prefix filter', 'e20', 600, 40000, 'as above under SkipFiles prefixes', ['prefix'])
+E20R = _o('oracle: TreeDiff+BlobCache, name pattern filter', 'e20', 600, 40000, 'as above under a name regexp', ['regex'])
+E20L = _o('oracle: TreeDiff+BlobCache, language filter (known finding stream D10)', 'e20', 300, 20000,
+          'language filter {c, go}; failures accepted only in the class language-flip', ['lang'])
+E20S = _o('oracle: TreeDiff+BlobCache, submodule in the first commit (known finding stream D15)', 'e20', 300, 20000,
+          'submodule entries allowed in the first commit; failures accepted only in the class submodule-in-first-commit', ['none-sub0'])
+
+E10 = dict(name='oracle: every subset of the registered leaves, features on/off (deploy closure, success, order)', probe='e10',
+           fam=None, quick=0, thorough=0, exhaustive=True, shards={'quick': 1, 'thorough': 1}, nontrivial=nt_any,
+           rule='all 2^n-1 subsets of the leaves registered in the current tree x features on/off: deployed set == closure of the '
+                'providers enabled at deployment time, initialisation succeeds iff no requirement is left without provider, '
+                'resolved order valid')
 PLAN4 = dict(name='prepareRunPlan validated (all graphs of 4 commits x all hash orders)', probe='kplan', fam=['pl'],
              quick=0, thorough=0, exhaustive=True, extra=['exh', '4'], shards={'quick': 2, 'thorough': 2},
              nontrivial=lambda ops, impl: ' F:' in ops[0] or ' M:' in ops[0],
@@ -157,20 +196,20 @@ PROPS = {
     'C02': dict(level='translation_validation', corr=[PLAN4, PLAN5, PLAN6, PLANR]),
     'C03': dict(corr=[FU]),
     'C04': dict(corr=[GC, PLAN5, PLANR]),
-    'C05': dict(corr=[RB, RBQ, RBC, RBW]),
-    'C06': dict(corr=[RB, RBC, RBW, HB, HBF]),
+    'C05': dict(corr=[RB, RBQ, RBC, RBW, E05]),
+    'C06': dict(corr=[RB, RBC, RBW, HB, HBF, E05]),
     'C07': dict(corr=[MG, DAG]),
     'C08': dict(corr=[DAG, RBC, RBW]),
     'C09': dict(corr=[RUN, HB, HBF, E01]),
-    'C10': dict(level='translation_validation', corr=[RES]),
-    'C11': dict(corr=[LN]),
-    'C12': dict(corr=[LN, RUN]),
+    'C10': dict(level='translation_validation', corr=[RES, E10]),
+    'C11': dict(corr=[LN, E11]),
+    'C12': dict(corr=[LN, RUN, E14]),
     'C13': dict(corr=[RN]),
-    'C14': dict(corr=[RUN]),
+    'C14': dict(corr=[RUN, E14]),
     'C15': dict(corr=[TS]),
-    'C16': dict(corr=[IDG, IDM]),
-    'C17': dict(corr=[CD, E01]),
-    'C18': dict(corr=[DEV, IDM]),
-    'C19': dict(corr=[TK]),
-    'C20': dict(corr=[TD, BC]),
+    'C16': dict(corr=[IDG, IDM, E16I, E16M]),
+    'C17': dict(corr=[CD, CDC, E01]),
+    'C18': dict(corr=[DEV, IDM, E18]),
+    'C19': dict(corr=[TK, E19]),
+    'C20': dict(corr=[TD, BC, E20N, E20P, E20R, E20L, E20S]),
 }
